@@ -206,6 +206,8 @@ def run(tier):
                     ck.violation('mismatched-fields kind=%s' % _gen(tag), '[%s] JSON names %r, the rule names %r' % (tag, got, sorted(e['errors'])), replay)
                     continue
             ck.cov['traces_validated_against_impl'] += 1
+    targets_leg(ck, cases, plan, exp, tier)
+    client_leg(ck, rnd, tier)
     overwrite_leg(ck, P)
     builtin_leg(ck, tb, tier)
     ck.sample({'peer': P[1], 'policy_file_head': (made[1]['files'].get('made.txt') or '')[-600:]})
@@ -213,6 +215,136 @@ def run(tier):
                       'same server and on every single-attribute perturbation {add, remove, swap} x {kex, key, enc, mac}, RSA size +-, CA size +-, CA type, cert size, '
                       'modulus +-; expected verdict/fields from TLC (SshPolicy: Create, Load, Errors; laws RoundTrip, Drift); all built-in policies against their own peer')
     return ck.finish()
+
+
+def targets_leg(ck, cases, plan, exp, tier):
+    """The made policy applied to several targets in one invocation (-P file -T list): the target it was made from passes with an
+    empty error list and every drifted target fails naming its own field, whatever the other targets of the run are."""
+    from checks import multi
+    by_base = {}
+    for c, pl in zip(cases, plan):
+        by_base.setdefault(pl[0], []).append((c, pl))
+    scs, meta = [], []
+    for i, group in sorted(by_base.items())[:(8 if tier == 'quick' else 40)]:
+        same = [g for g in group if g[1][1] == 'same']
+        drift = [g for g in group if g[1][1] != 'same' and not exp[g[0]['id']]['passed']]
+        if not same or len(drift) < 2:
+            continue
+        seq = [drift[0], same[0], drift[len(drift) // 2], same[0], drift[-1]]
+        tg = [('server', server_of(pl[3])) for _, pl in seq]
+        for threads in (1, 2):
+            sc, labels = multi.scenario(tg, threads, tuple(range(len(tg))) if threads == 1 else None, json_out=True, extra=['-P', '{tmp}/made.txt'])
+            sc['files']['made.txt'] = same[0][1][2]
+            scs.append(sc)
+            meta.append((seq, labels, threads))
+    for (seq, labels, threads), sc, r in zip(meta, scs, runner.run_many(scs)):
+        ck.evaluated()
+        if r.get('harness_error') or r.get('hang'):
+            raise common.Machinery('multi-target made-policy run failed: %r' % (r.get('harness_error') or 'hang'))
+        replay = {'policy_file': sc['files']['made.txt'], 'argv': sc['argv'], 'targets': [pl[1] for _, pl in seq], 'exit': r['exit'], 'stdout': r['stdout'][-3000:]}
+        try:
+            doc = json.loads(r['stdout'])
+        except ValueError:
+            ck.violation('made-policy-target-list-json-unparsable', 'stdout of -j -P made.txt -T list is not JSON', replay)
+            continue
+        ok = True
+        for el in doc:
+            lab = '%s:%s' % (el.get('host'), el.get('port'))
+            if lab not in labels:
+                continue
+            c, pl = seq[labels.index(lab)]
+            e = exp[c['id']]
+            got = sorted({x['mismatched_field'] for x in el.get('errors', [])})
+            if el.get('passed') != e['passed'] or got != sorted(e['errors']):
+                ck.violation('made-policy-in-target-list %s threads=%d' % ('own-target' if pl[1] == 'same' else 'drifted-target', threads),
+                             '[%s] as one of several targets: passed=%r errors=%r; the rule gives passed=%r errors=%r'
+                             % (pl[1], el.get('passed'), got, e['passed'], sorted(e['errors'])), replay)
+                ok = False
+                break
+        if ok and r['exit'] != 3:
+            ck.violation('made-policy-in-target-list exit=%s' % r['exit'], 'a run with drifted targets ends with status %s' % r['exit'], replay)
+            ok = False
+        if ok:
+            ck.cov['traces_validated_against_impl'] += 1
+
+
+def client_of(q):
+    k = {f: ([] if q[f] == [''] else q[f]) for f in ('kex', 'key', 'enc', 'mac', 'comp')}
+    for f in ('enc_c2s', 'mac_c2s'):
+        if f in q:
+            k[f] = q[f]
+    return {'banner': ('SSH-2.0-' + q['banner']).encode(), 'kexinit': k}
+
+
+def client_leg(ck, rnd, tier):
+    """Client policies (-c -M, then -c -P): the same two laws for a client peer, including clients whose KEXINIT names different
+    algorithms per direction - the policy is made from, and compared with, the lists the report shows."""
+    C = []
+
+    def add(kex, key, enc, mac, **kw):
+        C.append(dict({'banner': 'OpenSSH_9.6', 'comp': ['none', 'zlib@openssh.com'], 'kex': kex, 'key': key, 'enc': enc, 'mac': mac, 'hks': {}, 'dhs': {}}, **kw))
+    add(['curve25519-sha256', 'diffie-hellman-group16-sha512', 'kex-strict-c-v00@openssh.com'], ['ssh-ed25519', 'rsa-sha2-512'],
+        ['chacha20-poly1305@openssh.com', 'aes256-gcm@openssh.com'], ['hmac-sha2-256-etm@openssh.com', 'hmac-sha2-512'])
+    add(['curve25519-sha256', 'ecdh-sha2-nistp256'], ['ssh-ed25519', 'ecdsa-sha2-nistp256', 'rsa-sha2-256'], ['aes128-ctr', 'aes256-ctr'], ['hmac-sha2-256', 'hmac-sha1'],
+        enc_c2s=['aes256-gcm@openssh.com', 'aes128-ctr', '3des-cbc'], mac_c2s=['hmac-sha2-512-etm@openssh.com'])
+    add(['sntrup761x25519-sha512@openssh.com', 'curve25519-sha256'], ['ssh-ed25519'], ['aes128-gcm@openssh.com'], ['umac-128-etm@openssh.com', 'hmac-sha2-256'],
+        enc_c2s=['aes128-gcm@openssh.com'], mac_c2s=['hmac-sha2-256', 'umac-128-etm@openssh.com'])
+    add(['curve25519-sha256'], ['ssh-ed25519'], ['aes128-ctr', 'aes192-ctr', 'aes256-ctr'], ['hmac-sha2-512'], enc_c2s=['aes256-ctr'], mac_c2s=['hmac-sha2-512'])
+    base_args = ['--skip-rate-test', '-c', '-p', '2222', '-t', '5']
+    made = runner.run_many([{'argv': ['-n'] + base_args + ['-M', '{tmp}/made.txt'], 'clients': [client_of(q)], 'collect': ['made.txt']} for q in C])
+    cases, plan = [], []
+    for i, (q, r) in enumerate(zip(C, made)):
+        ck.evaluated()
+        if r.get('harness_error') or r.get('hang'):
+            raise common.Machinery('client make-policy run failed: %r' % (r.get('harness_error') or 'hang'))
+        text = r['files'].get('made.txt')
+        if r['exit'] != 0 or text is None:
+            ck.violation('client-make-policy-failed exit=%s' % r['exit'], '-c -M did not write a policy', {'peer': q, 'stdout': r['stdout'][-1500:]})
+            continue
+        if 'client policy = true' not in text:
+            ck.violation('client-policy-not-marked', 'the policy written by -c -M is not marked as a client policy', {'peer': q, 'policy_file': text})
+        cases.append({'id': len(cases) + 1, 'base': _core(q), 'peer': _core(q), 'drift': ''})
+        plan.append((i, 'same', text, q))
+        for tag, field, p2 in perturbations(q, rnd):
+            if tag.split('-')[0] not in ('add', 'remove', 'swap'):
+                continue
+            p2['hks'] = {}
+            cases.append({'id': len(cases) + 1, 'base': _core(q), 'peer': _core(p2), 'drift': field})
+            plan.append((i, tag, text, p2))
+    cfg = 'SPECIFICATION Spec\nCONSTANTS\n Mode = "oracle"\n MaxLen = 2\nINVARIANT RoundTrip\nINVARIANT Drift\nINVARIANT Emit\n'
+    res = tlc.run('SshPolicy', cfg, generated={'cases.json': json.dumps(cases)}, env={'VERIF_CASES': 'cases.json'}, workers=1)
+    ck.add_tlc(res)
+    common.require(res.ok, 'SshPolicy (client policies): %s violated on the rule itself:\n%s' % (res.violated, '\n'.join(res.trace[-40:])))
+    exp = {p['id']: p for p in res.prints if isinstance(p, dict) and 'errors' in p}
+    common.require(len(exp) == len(cases), 'TLC emitted %d verdicts for %d client cases' % (len(exp), len(cases)))
+    runs = runner.run_many([{'argv': ['-j'] + base_args + ['-P', '{tmp}/made.txt'], 'clients': [client_of(p2)], 'files': {'made.txt': text}}
+                            for (i, tag, text, p2) in plan])
+    for c, (i, tag, text, p2), r in zip(cases, plan, runs):
+        e = exp[c['id']]
+        ck.evaluated()
+        ck.nontrivial(('client', i, tag))
+        replay = {'base_client': C[i], 'audited_client': p2, 'perturbation': tag, 'policy_file': text, 'expected': e, 'exit': r.get('exit'), 'stdout': (r.get('stdout') or '')[-2500:]}
+        if r.get('harness_error') or r.get('hang'):
+            raise common.Machinery('client policy run failed: %r' % (r.get('harness_error') or 'hang'))
+        want_exit = 0 if e['passed'] else 3
+        if r['exit'] != want_exit:
+            ck.violation(('made-client-policy-fails-on-its-own-client' if tag == 'same' else 'client-drift-not-detected kind=%s' % _gen(tag)),
+                         '[client, %s] exit %s, the rule says %s (%r)' % (tag, r['exit'], 'passed' if e['passed'] else 'failed', sorted(e['errors'])), replay)
+            continue
+        try:
+            doc = json.loads(r['stdout'])
+        except ValueError:
+            ck.violation('client-policy-json-unparsable', 'stdout of -j -c -P is not JSON', replay)
+            continue
+        got = sorted({x['mismatched_field'] for x in doc.get('errors', [])})
+        if got != sorted(e['errors']):
+            ck.violation('client-mismatched-fields kind=%s' % _gen(tag), '[client, %s] JSON names %r, the rule names %r' % (tag, got, sorted(e['errors'])), replay)
+            continue
+        ck.cov['traces_validated_against_impl'] += 1
+
+
+def _core(q):
+    return {k: q[k] for k in ('banner', 'comp', 'kex', 'key', 'enc', 'mac', 'hks', 'dhs')}
 
 
 def _gen(tag):
